@@ -362,7 +362,7 @@ def boundary_sweep():
         for n in range(0, 5):
             for opn in ('get', 'set', 'popat', 'pushat'):
                 lines = []; nid = [0]
-                idxs = list(range(-n - 2, n + 3)) + [I64MAX, I64MIN, I64MAX - 1, I64MIN + 1, 2**62, -2**62]
+                idxs = sorted(set(list(range(-n - 2, n + 3)) + [-2 * n, -2 * n - 1, -2 * n - 2])) + [I64MAX, I64MIN, I64MAX - 1, I64MIN + 1, 2**62, -2**62, 2**32, 2**32 + 1, -2**32]
                 for ix in idxs:
                     if nid[0] >= 63: break
                     i = fresh(kind, n)
@@ -483,6 +483,12 @@ def seq_battery(r, i, kind, ty, alloc, n):
            f'popat {i} i{n}', f'popat {i} i{-n - 1}', f'popat {i} {r.choice(["sx", "p1", "N", f"i{far}"])}',
            f'pushat {i} {good} i{n + 1 if kind != "tup" else n}', f'pushat {i} {good} i{-n - 2 if kind == "arr" else -n - 1}', f'pushat {i} {good} {r.choice(["sx", "N", f"i{far}"])}']
     if n == 0: ops.append(f'pop {i}')
+    # the band a second `i = i < 0 ? nitems+i : i` would fold back into range: [-2n, -(n+1)] — both ends, one inside, one below it
+    band = sorted({-2 * n, -2 * n - 1, -n - 1 - (n // 2), -n - 2}) if n > 0 else [-1, -2]
+    opn = r.choice(['get', 'set', 'popat', 'pushat'])
+    for b in band:
+        ops.append(f'set {i} i{b} {good}' if opn == 'set' else f'pushat {i} {good} i{b - (1 if kind == "arr" else 0)}' if opn == 'pushat' else f'{opn} {i} i{b}')
+    ops.append(f'set {i} i{-2 * n if n else -1} {good}')
     if kind in ('arr', 'lst'):
         if n > 0: ops += [f'set {i} i{r.randrange(n)} {wrong}', f'set {i} i{-1} N', f'rem {i} {wrong}', f'mem {i} {wrong}']
         ops.append(f'rem {i} {_tok(ty, 1000) if ty != "plain" else "p1000"}')
@@ -586,7 +592,10 @@ class C12(Spec):
     harness_flags = ('-fno-sanitize=pointer-overflow',)
     technique = ('Lean 4 proofs over an executable model of the argument validation and mutation order of every fallible container / '
                  'value operation (index arithmetic on BitVec 64); translator link: the check / mutation order profile of the 71 mirrored C functions '
-                 'and the declaration matrix are regenerated from the sources on every run and are what theorems are stated about; '
+                 'and the declaration matrix are regenerated from the sources on every run and are what theorems are stated about; the index prologues '
+                 '(every statement that gives `i` its value in front of the IndexOutOfBoundsError guard, and the guard) of 9 functions are extracted as terms, '
+                 'evaluated with the C typing on BitVec 64 and proved equal to the model for every item count and key; every throw site (exception, message format, '
+                 'arguments) is extracted and the message of index / empty-pop refusals is rendered from it and compared with current(Exception)->msg; '
                  'white-box differential check of the model against the real library; '
                  'independent reference + before/after dump oracle in C under ASan/UBSan, risky calls probed in a forked child; '
                  'around every refused call a snapshot of the representation the caller can observe (len, values through get, iteration order, '
@@ -609,7 +618,13 @@ class C12(Spec):
                   'set and push as an explicit territory (Nest.kf) and C12_nest_set_refuted / C12_nest_push_refuted. Dispatcher: C12_null_call and '
                   'C12_bad_magic_call are stated about engine C08\'s model of Type_Of (Cello.Dispatch.typeOfW); C12_unimplemented_class_error derives '
                   'every ClassError-by-dispatch of the model from the declaration matrix generated from the Cello(T, Instance(...)) texts '
-                  '(C12_class_error_iff_undeclared: the converse on one object per kind). Source order (translate/g_fail.py -> CelloGen.Fail.profile): '
+                  '(C12_class_error_iff_undeclared: the converse on one object per kind). Index prologues as programs (CelloGen.Fail.idx_<Function>, Cello/FailIdx.lean): C12_index_prologues_in_fragment, '
+                  'C12_index_prologue_as_modelled (for every nitems and every 64-bit key the statements of Array_Get/_Set/_Pop_At, List_At, Tuple_Get/_Set/_Push_At/_Pop_At '
+                  'as they stand in the source compute resolveB), C12_index_prologue_push_at, C12_index_prologue_raises_exactly (refusal exactly outside [-nitems, nitems)), '
+                  'C12_model_index_is_source_prologue, C12_index_double_normalisation_refuted (a normalisation statement written twice accepts -6 on 5 items); '
+                  'C12_refusal_message (the message of a refused index / empty pop is the format of the throw site in the source rendered with the key as passed — '
+                  'List_At: the normalised index — and the item count, %i = low 32 bits). '
+                  'Source order (translate/g_fail.py -> CelloGen.Fail.profile): '
                   'C12_source_profile (guards, throw sites, validating calls, element assigns and mutations of 71 functions equal the sequences the '
                   'model was written against), C12_source_checks_precede_mutations (an abstract interpretation of the generated profile: in 49 functions '
                   'no raising event is reachable after a mutation), C12_source_order_violations (the 22 others: the known findings — incl. the six *_Sort_* functions and print_to_with — and five benign '
@@ -643,7 +658,7 @@ class C12(Spec):
             'plain Int/Plain objects; about half the operations carry an invalid argument (index one past either end, far out, at the int64 limits, '
             'of the wrong type, NULL; absent or wrong-typed key/value/element; empty pop; unsupported resize; method the type lacks; non-heap target; '
             'too few / wrong-typed print arguments; dealloc of stack/static/data objects; calls on NULL; sort of a type without Sort) and are followed by further valid operations; sort on Arrays / Tuples of one item type and assign(x, x) on every kind of object are mixed in; '
-            'plus an exhaustive index sweep (-n-2..n+2 and int64 limits, sizes 0..4, get/set/pop_at/push_at on the three sequence types) and a '
+            'plus an exhaustive index sweep (-n-2..n+2, -2n-2..-2n, ±2^32 and int64 limits, sizes 0..4, get/set/pop_at/push_at on the three sequence types; the refusal batteries fire the band [-2n, -(n+1)] that a doubled normalisation would fold back into range, at every size) and a '
             'Range/Slice sweep (27 ranges: steps 0, ±1..±3, ±2^62, INT64_MAX, fields at the int64 limits; indices at both ends of [-len, len), '
             '±2^63 and around INT64_MAX/|step| and (INT64_MAX-start)/step; slices with step 0 / ±10^6; rem of Int/Plain/NULL on heap/stack/static '
             'Strings). Table histories pass the key object / the value object of an occupied slot of the table itself as the key of get (getk / getv: '
@@ -663,7 +678,10 @@ class C12(Spec):
             'observation) pair whose result is an exception or ub; distinct = distinct text.')
     trusted_base = ('lean/Cello/Fail.lean is a hand model of the C control flow: validated by the correspondence (testing) and pinned to the source text by '
                     'the generated check/mutation profile (translate/g_fail.py: a text-level extractor, no C parser; what a callee does is known only '
-                    'for the 64 profiled functions and the listed primitives)',
+                    'for the 64 profiled functions and the listed primitives); the index prologues of the nine index-taking sequence functions are '
+                    'extracted as terms and tied to the model by ∀-theorems (the C typing of the evaluator in Cello/FailIdx.lean is hand-written; statements '
+                    'behind the guard — the walk of List_At, the memmove arguments — are not extracted); exception messages are compared for '
+                    'IndexOutOfBoundsError on Array / List / Tuple only (all other refusals: exception type only)',
                     'harness/h_fail.c + lean/Driver/Fail.lean (correspondence is testing); the C reference inside the harness is a third implementation',
                     'libc malloc/realloc/memmove/strstr/vsnprintf are modelled, not verified; allocation never fails')
     assumptions = ('default (checked) build; single thread; collector stopped so that harness-held objects stay alive',
@@ -735,6 +753,24 @@ class C12(Spec):
             if w[0] in ('getk', 'getv') and res != 'bad-op': acc['table_get_slot_address'] = acc.get('table_get_slot_address', 0) + 1
             if ' | N' in o and res != 'new': acc['nested_ops'] = acc.get('nested_ops', 0) + 1
             if ' | J ' in o and res != 'new': acc['bad_magic_ops'] = acc.get('bad_magic_ops', 0) + 1
+            # branch counters of the index prologues (extension round): sign of the key x outcome, the band [-2n, -(n+1)] that a second
+            # normalisation would accept (n from the message), keys beyond 32 bits (`%i` prints the low half), messages compared
+            if w[0] in ('get', 'set', 'popat', 'pushat') and ' | ' in o and o.split(' | ')[1][:2] in ('A ', 'L ', 'T ') and res != 'bad-op':
+                ixt = (w[3] if len(w) > 3 else '') if w[0] == 'pushat' else (w[2] if len(w) > 2 else '')
+                if ixt[:1] == 'i':
+                    try: ix = int(ixt[1:])
+                    except ValueError: ix = None
+                    if ix is not None:
+                        refused = res == 'raised:IndexOutOfBoundsError'
+                        b = ('idx_neg_' if ix < 0 else 'idx_nonneg_') + ('refused' if refused else 'accepted' if res.startswith('ok') else 'other')
+                        acc[b] = acc.get(b, 0) + 1
+                        if refused and ' msg=' in o:
+                            msg = o.split(' msg=')[1].split(' | ')[0]
+                            try: n = int(msg.rsplit(' of size ', 1)[1].rstrip('.'))
+                            except (IndexError, ValueError): n = None
+                            if n is not None and n > 0 and -2 * n <= ix <= -(n + 1): acc['idx_refused_in_double_normalisation_band'] = acc.get('idx_refused_in_double_normalisation_band', 0) + 1
+                            if abs(ix) >= 2**31: acc['idx_message_key_beyond_int32'] = acc.get('idx_message_key_beyond_int32', 0) + 1
+            if ' msg=' in o: acc['refusal_messages_compared'] = acc.get('refusal_messages_compared', 0) + 1
             key = res if res.startswith('raised:') else res.split(':')[0]
             acc[key] = acc.get(key, 0) + 1
             if res.startswith('raised:'):
